@@ -318,3 +318,48 @@ func SortedKeys[V any](m map[string]V) []string {
 	sort.Strings(keys)
 	return keys
 }
+
+// eventJSON is the wire form of Event: a float field is omitted only when its
+// bit pattern is zero, so that -0 survives a replay file.
+type eventJSON struct {
+	Ev string  `json:"ev"`
+	N  int     `json:"n"`
+	M  int     `json:"m,omitempty"`
+	I  int64   `json:"i,omitempty"`
+	J  int64   `json:"j,omitempty"`
+	V  *F64    `json:"v,omitempty"`
+	W  *F64    `json:"w,omitempty"`
+	Q  []F64   `json:"q,omitempty"`
+	L  []int64 `json:"l,omitempty"`
+	S  string  `json:"s,omitempty"`
+	B  string  `json:"b,omitempty"`
+	T  int64   `json:"t,omitempty"`
+}
+
+func (e Event) MarshalJSON() ([]byte, error) {
+	j := eventJSON{Ev: e.Ev, N: e.N, M: e.M, I: e.I, J: e.J, Q: e.Q, L: e.L, S: e.S, B: e.B, T: e.T}
+	if math.Float64bits(float64(e.V)) != 0 {
+		v := e.V
+		j.V = &v
+	}
+	if math.Float64bits(float64(e.W)) != 0 {
+		w := e.W
+		j.W = &w
+	}
+	return json.Marshal(j)
+}
+
+func (e *Event) UnmarshalJSON(b []byte) error {
+	var j eventJSON
+	if err := json.Unmarshal(b, &j); err != nil {
+		return err
+	}
+	*e = Event{Ev: j.Ev, N: j.N, M: j.M, I: j.I, J: j.J, Q: j.Q, L: j.L, S: j.S, B: j.B, T: j.T}
+	if j.V != nil {
+		e.V = *j.V
+	}
+	if j.W != nil {
+		e.W = *j.W
+	}
+	return nil
+}
